@@ -86,6 +86,7 @@ func c02Run(c *Ctx) {
 	for name, t := range m.VerifParameters() {
 		weights[name] = mon.Fp(t)
 	}
+	protoFp := mon.ProtoFingerprint(m)
 	px := mon.Attach(m)
 	px.Detach(m)
 
@@ -276,6 +277,12 @@ func c02Run(c *Ctx) {
 		for name, t := range m.VerifParameters() {
 			if same, what := weights[name].Equal(mon.Fp(t)); !same {
 				c.Violation("history:weight-modified", "weight %q changed during step %d (%s): %s%s | history %s | model %s", name, step, action, what, blame(events), hist, trunc(desc, 300))
+				return
+			}
+		}
+		if !spec.Heavy || step == steps-1 {
+			if fp := mon.ProtoFingerprint(m); fp != protoFp {
+				c.Violation("history:model-proto-modified", "the decoded model (node attributes, attribute tensors, initializer protos) changed during step %d (%s)%s | history %s | model %s", step, action, blame(events), hist, trunc(desc, 300))
 				return
 			}
 		}
